@@ -15,6 +15,11 @@ CHECKS = {
          "all such intensities, <= variance of the ordinary fit, reported variance == variance model (K**2 propagation, default Epsilon), stacked problem feasible incl. padded rows", "4 C09"),
  "C10": ("real lsq_linear_adaptive / fit_adaptive on symbolic systems: returned intensities and scales satisfy the documented total / offset constraints and the bounds, no feasible "
          "pair is better for 'unity' / 'max' (contract instance at an arbitrary competitor pair), feasibility, all-in-gamut => scales (1,1) via a closed lemma, prediction identity, name guard", "4 C10"),
+ "C16": ("the real transformer loop with exact algebraic square roots: unit pairwise distances for n=2..9 (12 thorough) and unreachable internal assertion; affine map; exact inverse "
+         "round trip (n<=4) incl. L1 and centring; scale invariance of the chromatic reduction; n-sphere conversion through the real code with an angle abstraction: radius, angle "
+         "ranges and round trip for every point incl. zero patterns (dimension 2-3, 4 thorough)", "4 C16"),
+ "C20": ("real irr2flux / flux2irr with the real pint registry on symbolic magnitudes: equals I*lambda/(h c N_A) with the exact SI constants to rel 1e-12, exact inverse, linear, "
+         "axis= variant == broadcast form, same numbers for plain arrays and quantities in several units, requested prefix/unit returned", "4 C20"),
  "C05": ("exhaustive grid of (n_samples, batch_size) incl. non-dividing, larger-than-n and 'full' for the gaussian, poisson and excitation models: the real batching code "
          "(padding, block-diagonal stacking, scatter) runs on symbolic contents through the cvxpy shim; z3 decides per row: no exception, the result row is its own block of the "
          "stacked solution, it is optimal for its own target/weights alone (separability instance of the stacked contract), and the stacked problem is feasible whenever each row's is", "4 C05"),
